@@ -65,6 +65,9 @@ func (f *failoverStatus) report(ctx context.Context, witness string) *status.Sta
 		if f.timer != nil {
 			f.timer.Stop()
 		}
+		// The witnesses referred to the leader that is being replaced, so
+		// forget them.
+		f.witnesses = make(map[string]struct{})
 		f.mu.Unlock()
 		return f.failover.Failover(ctx)
 	}
